@@ -368,3 +368,47 @@ func VH_C14_snapshot() {
 	src.checkListing(m)
 	verif.Cover("end")
 }
+
+// names whose catalogue key would fall below another record of the
+// catalogue: a nested name, another table's lease record, the id sequence.
+var vhNestedNames = []string{"a/b", "a/lease", "sys/idseq"}
+
+// VH_C14_names: creating a table under a name containing '/' on an arbitrary
+// catalogue (optionally after table "a" was leased). Either the creation
+// succeeds and the table is catalogued like any other (listed, found by
+// lookup, fresh id), or it fails and nothing changed.
+func VH_C14_names() {
+	c := vhArbCatalogue()
+	m := c.manager(1)
+	name := vhNestedNames[verif.Choice(3)]
+	before := c.maxID()
+	seq0, ok0 := kv.VHGetRaw(c.lf, sequenceKey)
+	rec0, rok0 := kv.VHGetRaw(c.lf, storedTableName(name))
+	t, err := m.createTable(name)
+	if err == nil {
+		verif.Assert(t.Name == name && t.ClusterID > before, "new id is greater than every id assigned before")
+		at, gerr := m.GetTable(name)
+		verif.Assert(gerr == nil && at.Name == name && at.ClusterID == t.ClusterID, "lookup finds the created table")
+		c.tables[name] = t
+		c.seq = t.ClusterID
+		verif.Cover("created")
+	} else {
+		rec1, rok1 := kv.VHGetRaw(c.lf, storedTableName(name))
+		verif.Assert(rok0 == rok1 && (!rok0 || (rec0.Value == rec1.Value && rec0.Ver == rec1.Ver)), "a failed creation leaves no record behind")
+		seq1, ok1 := kv.VHGetRaw(c.lf, sequenceKey)
+		verif.Assert(ok0 == ok1 && (!ok0 || seq0.Value == seq1.Value), "a rejected name does not consume an id")
+		verif.Cover("rejected")
+	}
+	c.checkListing(m)
+	seq, ok := kv.VHGetRaw(c.lf, sequenceKey)
+	cur := tableIDsRangeStart
+	if ok {
+		var perr error
+		cur, perr = strconv.ParseUint(seq.Value, 10, 64)
+		verif.Assert(perr == nil, "the id sequence record is still a number")
+	}
+	for _, t := range c.tables {
+		verif.Assert(t.ClusterID <= cur, "id sequence dominates every catalogued id (ids are never reused)")
+	}
+	verif.Cover("end")
+}
